@@ -200,6 +200,17 @@ def mutations(gc, P, comp_bytes, unc_bytes, rng, pool):
                 continue
             iso = (O.f2_mul(P[0], l2), O.f2_mul(P[1], l3))
         out.append(('isomorphic-curve-point', False, coord_bytes(gc, iso[0]) + coord_bytes(gc, iso[1])))
+    # ... and points of SMALL prime order dividing the cofactor (13, 23, 2713 on the twist; 3, 11, 10177 on the curve): a subgroup test
+    # that is not literally "[r]P = O" (an endomorphism shortcut, a comparison of abscissas only) tends to let exactly these through
+    smalls = []
+    for ell in O.SMALL_ORDERS[gc.which][:2]:
+        T, _ = O.small_order_point(gc.which, rng, ell)
+        smalls.append(T)
+    for S in smalls:
+        xb = coord_bytes(gc, S[0])
+        yb = coord_bytes(gc, S[1])
+        t = bytearray(xb); t[0] |= F_COMP | (F_GT if O.sort_greater(gc.which, S[1]) else 0); out.append(('not-in-subgroup', True, bytes(t)))
+        out.append(('not-in-subgroup', False, xb + yb))
     # abscissa of a curve point outside the subgroup, both forms
     for S in pool.curve[:2]:
         xb = coord_bytes(gc, S[0])
